@@ -43,12 +43,15 @@ type Cfg struct {
 	// Barrier: every parent gets |barrier().idle(100ms) (wall-clock driven; used with Sleep steps and
 	// times that are 1000 units apart so that the barriers stay truthful however long a pause takes).
 	Barrier bool `json:",omitempty"`
+	// Streamed: batch parents get |where(lambda: "v" > 0) below the query node, which forwards every batch as the
+	// unbuffered sequence begin, point*, end; the multiConsumer's reader reassembles it (edge.BatchBuffer).
+	Streamed bool `json:",omitempty"`
 	// Script, if set, replaces the generated TICKscript (manual probes only).
 	Script string `json:",omitempty"`
 }
 
 func (c Cfg) String() string {
-	return fmt.Sprintf("%s/%s/n%d/%s/tol%d/on%v/bar%v", c.Kind, c.Edge, c.N, c.Fill, c.Tol, c.On, c.Barrier)
+	return fmt.Sprintf("%s/%s/n%d/%s/tol%d/on%v/bar%v/str%v", c.Kind, c.Edge, c.N, c.Fill, c.Tol, c.On, c.Barrier, c.Streamed)
 }
 
 var parentNames = []string{"a", "b", "c"}
@@ -90,7 +93,11 @@ func (c Cfg) script() string {
 					gb = ".groupBy('b', 'f')"
 				}
 			}
-			fmt.Fprintf(&sb, "var %s = batch|query('SELECT v FROM db.rp.%s').period(10s).every(1000h)%s\n", nm, nm, gb)
+			st := ""
+			if c.Streamed {
+				st = "|where(lambda: \"v\" > 0)"
+			}
+			fmt.Fprintf(&sb, "var %s = batch|query('SELECT v FROM db.rp.%s').period(10s).every(1000h)%s%s\n", nm, nm, gb, st)
 		}
 	}
 	others := strings.Join(parentNames[1:c.N], ", ")
@@ -284,6 +291,20 @@ func groupString(tags map[string]string) string {
 //
 // out lists what reached the sink below the join/union during that step.
 func (r *runner) Run(t *rt.Trace, c Cfg, parents [][]Msg, sched []Step) {
+	r.run(t, c, parents, sched, false)
+}
+
+// RunGated is Run for a Streamed batch task with the schedule at MESSAGE granularity: every step lets the
+// reader of parent Src handle its next begin/point/end message (see gate.go); the steps that are not an
+// end message are logged as Part{src}, the end message of batch k as Deliver{src,k,out}.
+func (r *runner) RunGated(t *rt.Trace, c Cfg, parents [][]Msg, sched []Step) {
+	if c.Edge != "batch" || !c.Streamed {
+		rt.Fatalf("c12: gated runs need a streamed batch task")
+	}
+	r.run(t, c, parents, sched, true)
+}
+
+func (r *runner) run(t *rt.Trace, c Cfg, parents [][]Msg, sched []Step, gated bool) {
 	r.seq++
 	id := fmt.Sprintf("c12-%s-%d", r.name, r.seq)
 	r.env.Diag.Clear()
@@ -291,6 +312,11 @@ func (r *runner) Run(t *rt.Trace, c Cfg, parents [][]Msg, sched []Step) {
 	tt := kapacitor.StreamTask
 	if c.Edge == "batch" {
 		tt = kapacitor.BatchTask
+	}
+	var tg *taskGate
+	if gated {
+		tg = newTaskGate(id)
+		defer tg.drop(id)
 	}
 	et, err := r.env.StartTask(id, c.script(), tt, rt.DefaultDBRP)
 	if err != nil {
@@ -383,6 +409,24 @@ func (r *runner) Run(t *rt.Trace, c Cfg, parents [][]Msg, sched []Step) {
 		return out
 	}
 
+	feedBatch := func(src int, m Msg) {
+		tags := models.Tags(c.tags(src, m.G))
+		if m.P == nil {
+			rt.Fatalf("c12: batch message without points")
+		}
+		begin := edge.NewBeginBatchMessage(parentNames[src], tags, false, r.tmap.T(m.T), len(m.P))
+		pts := make([]edge.BatchPointMessage, len(m.P))
+		for i, pk := range m.P {
+			pts[i] = edge.NewBatchPointMessage(models.Fields{"v": int64(m.V*10 + i + 1)}, tags, r.tmap.T(pk))
+		}
+		if err := colls[src].CollectBatch(edge.NewBufferedBatchMessage(begin, pts, edge.NewEndBatchMessage())); err != nil {
+			rt.Fatalf("c12: collect batch: %v", err)
+		}
+	}
+	if gated {
+		failed = r.gatedSteps(t, c, tg, parents, sched, feedBatch, drain)
+		sched = nil
+	}
 	for _, s := range sched {
 		if failed {
 			break
@@ -413,18 +457,7 @@ func (r *runner) Run(t *rt.Trace, c Cfg, parents [][]Msg, sched []Step) {
 				rt.Fatalf("c12: write: %v", err)
 			}
 		} else {
-			tags := models.Tags(c.tags(s.Src, m.G))
-			if m.P == nil {
-				rt.Fatalf("c12: batch message without points")
-			}
-			begin := edge.NewBeginBatchMessage(parentNames[s.Src], tags, false, r.tmap.T(m.T), len(m.P))
-			pts := make([]edge.BatchPointMessage, len(m.P))
-			for i, pk := range m.P {
-				pts[i] = edge.NewBatchPointMessage(models.Fields{"v": int64(m.V*10 + i + 1)}, tags, r.tmap.T(pk))
-			}
-			if err := colls[s.Src].CollectBatch(edge.NewBufferedBatchMessage(begin, pts, edge.NewEndBatchMessage())); err != nil {
-				rt.Fatalf("c12: collect batch: %v", err)
-			}
+			feedBatch(s.Src, m)
 		}
 		delivered++
 		switch r.ts.wait(delivered, stepTimeout, r.nodeFailed) {
@@ -459,4 +492,96 @@ func (r *runner) Run(t *rt.Trace, c Cfg, parents [][]Msg, sched []Step) {
 		errs = append(errs, e.Ctx+": "+e.Msg+": "+e.Err)
 	}
 	t.Event("Finish", rt.M{"out": out, "failed": failed, "errors": errs})
+}
+
+// gatedSteps executes a message-granularity schedule on a gated streamed batch task.  Returns failed.
+func (r *runner) gatedSteps(t *rt.Trace, c Cfg, tg *taskGate, parents [][]Msg, sched []Step,
+	feed func(int, Msg), drain func() []any) bool {
+	fail := func(what string, res string) bool {
+		if res == "timeout" {
+			rt.Fatalf("c12: gated run: %s did not happen within %v (%s)", what, stepTimeout, c)
+		}
+		return res == "abort"
+	}
+	// message kinds per parent: 'b' begin, 'p' point, 'e' end
+	kinds := make([][]byte, c.N)
+	for s, p := range parents {
+		for _, m := range p {
+			kinds[s] = append(kinds[s], 'b')
+			for range m.P {
+				kinds[s] = append(kinds[s], 'p')
+			}
+			kinds[s] = append(kinds[s], 'e')
+		}
+	}
+	// learn which parent node feeds which source: feed the first batch of one parent at a time and see
+	// whose reader arrives at the gate (holding that batch's begin message)
+	nodeOf := make([]string, c.N)
+	known := map[string]int{}
+	for s, p := range parents {
+		if len(p) == 0 {
+			continue
+		}
+		feed(s, p[0])
+		var name string
+		if fail("arrival of the first message of a parent", tg.waitFor(func() bool { name = tg.newArrival(known); return name != "" }, stepTimeout, r.nodeFailed)) {
+			return true
+		}
+		known[name] = s
+		nodeOf[s] = name
+	}
+	// everything else is queued in the parent edges right away; the gate decides what the readers see when
+	for s, p := range parents {
+		for _, m := range p[min(1, len(p)):] {
+			feed(s, m)
+		}
+	}
+	pos := make([]int, c.N)   // messages released per parent
+	batch := make([]int, c.N) // batches completed per parent
+	delivered := 0
+	for _, st := range sched {
+		s := st.Src
+		if pos[s] >= len(kinds[s]) {
+			rt.Fatalf("c12: gated schedule has too many steps for parent %d", s)
+		}
+		kind := kinds[s][pos[s]]
+		pos[s]++
+		want := pos[s]
+		// the reader must be parked holding exactly this message
+		var pg *parentGate
+		if fail("reader parked at its next message", tg.waitFor(func() bool {
+			pg = tg.parents[nodeOf[s]]
+			return pg != nil && pg.arrivals >= want
+		}, stepTimeout, r.nodeFailed)) {
+			return true
+		}
+		tg.mu.Lock()
+		pg.released = want
+		tg.cond.Broadcast()
+		tg.mu.Unlock()
+		if kind == 'e' {
+			// the reader hands the reassembled batch to the node: wait until the node has finished it
+			delivered++
+			batch[s]++
+			switch r.ts.wait(delivered, stepTimeout, r.nodeFailed) {
+			case "timeout":
+				rt.Fatalf("c12: gated run: %s node did not finish batch %d of parent %d within %v (%s)", c.Kind, batch[s], s, stepTimeout, c)
+			case "abort":
+				return true
+			}
+			t.Event("Deliver", rt.M{"src": s, "k": batch[s], "out": drain()})
+		} else {
+			// handled = the reader comes back for its next message (there always is one inside a batch)
+			if fail("reader back for the following message", tg.waitFor(func() bool { return pg.arrivals > want }, stepTimeout, r.nodeFailed)) {
+				return true
+			}
+			t.Event("Part", rt.M{"src": s, "out": drain()})
+		}
+	}
+	for s := range kinds {
+		if pos[s] != len(kinds[s]) {
+			rt.Fatalf("c12: gated schedule leaves messages of parent %d behind", s)
+		}
+	}
+	return false
 }
